@@ -48,8 +48,21 @@ type MapV struct {
 	nonStr  int                  // entries with any other key
 }
 
+// idxKey: a key that can be looked up exactly - a concrete Go string or a constant integer term.
+func idxKey(k Value) (string, bool) {
+	switch k := k.(type) {
+	case string:
+		return "s" + k, true
+	case *Term:
+		if k.IsConst() {
+			return fmt.Sprintf("t%d:%d", k.w, k.k), true
+		}
+	}
+	return "", false
+}
+
 func (m *MapV) add(e *mapEntry) {
-	if s, ok := e.k.(string); ok {
+	if s, ok := idxKey(e.k); ok {
 		if m.sidx == nil {
 			m.sidx = map[string]*mapEntry{}
 		}
@@ -62,7 +75,7 @@ func (m *MapV) add(e *mapEntry) {
 
 func (m *MapV) removeAt(i int) {
 	e := m.entries[i]
-	if s, ok := e.k.(string); ok {
+	if s, ok := idxKey(e.k); ok {
 		delete(m.sidx, s)
 	} else {
 		m.nonStr--
